@@ -54,6 +54,11 @@ CLAIMS = {
   text="Machine-checked proof that the blame colour assignment (get_color/get_next_color) satisfies the three colour clauses for every key sequence and every palette of >= 2 distinct colours, and is total for every mixture of git-coloured and plain lines; the hand-written model is tied to the code by running generated blame streams (exhaustive small scope + random + git-coloured mixtures) through the real binary and comparing decoded background colours row by row; the extracted specb (proved equivalent to the specification) and a row-content oracle (code, line number, metadata blanking) are evaluated on the implementation's output.",
   note="Trusted: Coq kernel; black-box harness and terminal decoder (tools/term.py); palette colours distinct; row contents are decided on the implementation by the oracle, not by a theorem. No axioms.",
   design="§6 C17"),
+ "C19": dict(
+  technique="Coq proof over the parser table regenerated from the linked crate (OSC sequences contribute no text; the OSC 8 wrapper strips to its text) + bytewise transparency oracle and link-target oracle on the binary",
+  text="Machine-checked proofs over the escape-sequence classification driven by the dumped anstyle-parse table: an OSC sequence with ST or BEL terminator contributes no text and returns the parser to the ground state (C19_osc_zero_width), so everything delta measures on the stripped line is unaffected by hyperlinks, and open ++ text ++ close strips to the text (C19_link_wrapper_transparent). On the real binary: with the OSC 8 sequences removed, the output with --hyperlinks is byte-identical to the output without, for generated diffs/logs under 10 modes (unified, side-by-side, line numbers, narrow widths, wrapping off) x 5 file-link templates x file-transformation x relative-paths; every link is opened and closed on its line; file links carry the absolute path of a file of the diff and, where the template has {line}, exactly the number displayed; commit links carry exactly the hash they wrap.",
+  note="Trusted: Coq kernel; translator D-vte; harness and Python terminal decoder (link attribute of cells); working directory fixed by the harness. Grep/blame inputs are not generated by this check (their links go through the same wrapper). No axioms.",
+  design="§6 C19"),
  "C20": dict(
   technique="Coq proof (invariant over all schedules of a lock-granularity transition system) + translator-regenerated shape parameters + forced-schedule correspondence on the real binary",
   text="Machine-checked proof in Coq 8.16 that the mutex/condvar protocol model never returns Pending, always reports a launched command, is deadlock-free and makes progress, for every schedule and every number of queries; the model's shape parameters are re-read from src/utils/process.rs on every run (tie lemma C20_code_shape), and every order of critical sections (publication x 1-3 queries x placement of the background thread) is forced on the hook-enabled binary and compared with the extracted model and with the property oracle.",
